@@ -69,6 +69,7 @@ class Ctx:
         self.maxdev: dict[str, float] = {}
         self.inconclusive: list[str] = []
         self.extra: dict = {}
+        self.reach: dict = {}
 
     # ---- observation ----------------------------------------------------
     def case(self, signature, n: int = 1, trivial: bool = False):
@@ -154,6 +155,7 @@ class Ctx:
             'maxdev': self.maxdev,
             'inconclusive': self.inconclusive,
             'extra': jsonable(self.extra),
+            'reach': self.reach,
         }
 
     def dump(self, path: str):
